@@ -242,8 +242,9 @@ class C18(Prop):
     lean_modules = ["PkgProofs.Props.C18"]
     generated = ["MetadataTables"]
     theorems = [
-        "C18.partition", "C18.no_loss_no_invention", "C18.typed", "C18.unparsed_keeps_all_values",
-        "C18.repeat_single_use_unparsed", "C18.dup_label_unparsed", "C18.bad_bytes_unparsed", "C18.bad_chunk_invalid",
+        "C18.mapping_table", "C18.partition", "C18.no_loss_no_invention", "C18.typed", "C18.unparsed_keeps_all_values",
+        "C18.repeat_single_use_unparsed", "C18.dup_label_unparsed", "C18.bad_bytes_unparsed", "C18.bad_chunk_invalid", "C18.bad_chunk_not_utf8",
+        "Utf8.utf8Decode_iff", "Utf8.utf8Decode_none_iff",
         "C18.unknown_unparsed", "C18.string_once_raw", "C18.list_field_raw", "C18.body_description_rule",
         "C18.empty_body_ignored", "C18.bad_body_rule", "C18.raises_iff", "C18.never_raises",
         "C18.result_order_irrelevant", "C18.loop_partition", "C18.loop_no_invention", "C18.raw_lookup_iff",
